@@ -25,4 +25,8 @@ var items = []modItem{
 	// ---- offline (C18) ----
 	{"Offline", Item{Dir: "offline", Kind: "assign", Func: "NameToUUID", Local: "id[6]", Elem: "uint8", Name: "NameToUUID_byte6"}},
 	{"Offline", Item{Dir: "offline", Kind: "assign", Func: "NameToUUID", Local: "id[8]", Elem: "uint8", Name: "NameToUUID_byte8"}},
+	// ---- net (RCON, C16) ----
+	{"RCON", Item{Dir: "net", Kind: "const", Func: "MaxRCONPackageSize", Name: "MaxRCONPackageSize"}},
+	{"RCON", Item{Dir: "net", Kind: "cond", Recv: "RCONConn", Func: "ReadPacket", Err: "packet too short", Name: "RCON_ReadPacket_tooShort"}},
+	{"RCON", Item{Dir: "net", Kind: "cond", Recv: "RCONConn", Func: "ReadPacket", Err: "packet too large", Name: "RCON_ReadPacket_tooLarge"}},
 }
